@@ -434,10 +434,6 @@ func (d *Data) storeBlocks(ctx *datastore.VersionedCtx, r io.ReadCloser, scale u
 	}
 
 	mutID := d.NewMutationID()
-	var downresMut *downres.Mutation
-	if downscale {
-		downresMut = downres.NewMutation(d, ctx.VersionID(), mutID)
-	}
 
 	svmap, err := getMapping(d, ctx.VersionID())
 	if err != nil {
@@ -450,6 +446,12 @@ func (d *Data) storeBlocks(ctx *datastore.VersionedCtx, r io.ReadCloser, scale u
 	extents, err := d.GetExtents(ctx)
 	if err != nil {
 		return err
+	}
+	// (the down-res mutation marks every lower-resolution scale as updating until it is executed:
+	// it is created when nothing can keep this function from executing it)
+	var downresMut *downres.Mutation
+	if downscale {
+		downresMut = downres.NewMutation(d, ctx.VersionID(), mutID)
 	}
 	var blockCh chan blockChange
 	var putWG, processWG sync.WaitGroup
@@ -555,13 +557,13 @@ func (d *Data) storeBlocks(ctx *datastore.VersionedCtx, r io.ReadCloser, scale u
 	if putbuffer != nil {
 		putbuffer.Flush()
 	}
+	if downscale {
+		if err := downresMut.Execute(); err != nil && streamErr == nil {
+			streamErr = err
+		}
+	}
 	if streamErr != nil {
 		return streamErr
-	}
-	if downscale {
-		if err := downresMut.Execute(); err != nil {
-			return err
-		}
 	}
 	timedLog.Infof("Received and stored %d blocks for labelmap %q", numBlocks, d.DataName())
 	return nil
